@@ -23,6 +23,7 @@
 use super::aux_map::AuxMap;
 use crate::codec::SketchBytes;
 use crate::codec::SketchSlice;
+use crate::codec::assert::ensure_remaining;
 use crate::codec::assert::insufficient_data;
 use crate::codec::family::Family;
 use crate::common::NumStdDev;
@@ -331,6 +332,7 @@ impl Array4 {
 
         // Read packed 4-bit byte array
         // The nibble array is stored in full in both the compact and the updatable form
+        ensure_remaining(&cursor, num_bytes, 1, "data")?;
         let mut data = vec![0u8; num_bytes];
         cursor
             .read_exact(&mut data)
@@ -357,6 +359,12 @@ impl Array4 {
                 }
                 1usize << lg_aux_arr_ints
             };
+            ensure_remaining(&cursor, num_cells, 4, "aux entries")?;
+            if aux_count as usize > num_bytes * 2 {
+                return Err(Error::deserial(format!(
+                    "aux_count {aux_count} exceeds the number of registers"
+                )));
+            }
             let mut aux = AuxMap::new(lg_config_k);
             let mut num_read = 0u32;
             for i in 0..num_cells {
@@ -370,6 +378,11 @@ impl Array4 {
                 }
                 let slot = get_slot(coupon) & ((1 << lg_config_k) - 1);
                 let value = get_value(coupon);
+                if aux.get(slot).is_some() {
+                    return Err(Error::deserial(format!(
+                        "slot {slot} appears twice in the aux entries"
+                    )));
+                }
                 aux.insert(slot, value);
                 num_read += 1;
             }
